@@ -435,13 +435,17 @@ def shared_run(seed, tier, log=print):
                          ("narrow", plan_gen.directed_narrowing), ("both", plan_gen.directed_both), ("enums", plan_gen.directed_enums), ("assign", plan_gen.directed_assign)):
             for k, (prog, text) in enumerate(gen()):
                 cases.append(("%s-%d" % (fam, k), prog, text, {"directed_" + fam: 1}, fam))
+        case_timeout = {}
+        for k, (prog, text, tmo) in enumerate(plan_gen.directed_rings()):
+            cases.append(("rings-%d" % k, prog, text, {"directed_rings": 1}, "rings"))
+            case_timeout["rings-%d" % k] = tmo
         for k, (prog, texts) in enumerate(plan_gen.directed_incremental()):
             cases.append(("incr-%d" % k, prog, texts, {"incremental": 1}, "incr"))
         mut_rng = random.Random(seed + 17)
         t_solve = t_check = 0.0
         for (name, prog, text, feats, fam) in cases:
             for c in pl["configs"]:
-                dump, dt = solve_one(hexes[c], text, pl["timeout"])
+                dump, dt = solve_one(hexes[c], text, min(pl["timeout"], case_timeout.get(name, pl["timeout"])))
                 t_solve += dt
                 rec = {"name": name, "family": fam, "config": c, "feats": feats, "status": dump["status"], "what": dump.get("what", ""), "secs": round(dt, 3)}
                 if dump["status"] == "solved":
